@@ -260,7 +260,16 @@ def rule_ref_merge(ctx, F):
     ctx.ob(len(news) == 1 and unify(want, news[0][1]) is not None, "ref-update-next-chunk", up.loc, "next chunk state: %s" % [show(c[1])[:120] for c in news])
     fz = F.need_fn("Hasher::finalize")
     pos = [c for c in calls_of(fz) if c[1][1] == "parent_output"]
-    ok = len(pos) == 1 and pos[0][1][2][1][0] == "call" and pos[0][1][2][1][1] == "Output::chaining_value" and "cv_stack" in show(pos[0][1][2][0]) \
+    def left_is_stack_entry(x):
+        if "cv_stack" in show(x):
+            return True
+        # `for cv in self.cv_stack[..n].iter().rev()`: the operand is the next element of a reversed iterator over the stack
+        nx = x[1] if (isinstance(x, tuple) and x and x[0] == "path" and isinstance(x[1], tuple)) else x
+        if isinstance(nx, tuple) and nx and nx[0] == "call" and isinstance(nx[1], str) and "Rev<" in nx[1] and nx[1].endswith("::next") and nx[2] and nx[2][0][0] == "built":
+            src = val(fz.expand_built(nx[2][0]))
+            return find_sub(src, ("call", W(pred=lambda n_: isinstance(n_, str) and n_.endswith("::rev")), (W(),))) is not None and find_sub(src, P.self_("cv_stack")) is not None
+        return False
+    ok = len(pos) == 1 and pos[0][1][2][1][0] == "call" and pos[0][1][2][1][1] == "Output::chaining_value" and left_is_stack_entry(pos[0][1][2][0]) \
         and pos[0][1][2][2] == P.self_("key_words") and pos[0][1][2][3] == P.self_("flags")
     ctx.ob(ok, "ref-finalize-fold", fz.loc, "finalize folds parent_output(cv_stack[i], output.chaining_value(), key_words, flags): %s" % ok)
     ro = [c for c in calls_of(fz) if c[1][1] == "Output::root_output_bytes"]
